@@ -43,6 +43,7 @@ enum Cmd {
     CacheLoad(usize),
     SetGen(usize),
     Move(usize, usize),
+    Join(usize),
 }
 
 struct Program {
@@ -79,6 +80,7 @@ fn parse_cmd(s: &str) -> Cmd {
         "cacheload" => Cmd::CacheLoad(n(1)),
         "setgen" => Cmd::SetGen(n(1)),
         "move" => Cmd::Move(n(1), n(2)),
+        "join" => Cmd::Join(n(1)),
         _ => panic!("bad command {}", s),
     }
 }
@@ -333,6 +335,7 @@ where
                 self.put(*h2, v);
                 "U".into()
             }
+            Cmd::Join(_) => "U".into(),
             Cmd::SetGen(g) => {
                 arc_swap::verif::set_generation(*g);
                 "U".into()
@@ -641,7 +644,10 @@ where
         let enabled: Vec<usize> = (0..nthreads)
             .filter(|&i| match &w.parked[i] {
                 None => false,
-                Some(Pending::Cmd(k)) => cmd_enabled(&threads[i][*k]),
+                Some(Pending::Cmd(k)) => match &threads[i][*k] {
+                    Cmd::Join(j) => w.finished[*j],
+                    c => cmd_enabled(c),
+                },
                 Some(_) => true,
             })
             .collect();
